@@ -42,6 +42,10 @@ type Unreliable struct {
 	// closed publishes completion of Close, including the sender drain.
 	closed chan struct{}
 
+	// finReceived is set once the peer's FIN arrived: the peer is done with
+	// this tube, so a later REQ under the same id opens a new one.
+	finReceived atomic.Bool
+
 	// recv contains frames accepted from the Muxer but not returned to a reader.
 	recv *common.DeadlineChan[[]byte]
 	// send contains messages accepted from writers but not handed to the Muxer.
@@ -154,7 +158,11 @@ func (u *Unreliable) receiveInitiatePkt(pkt *initiateFrame) error {
 	// Send a RESP packet in response to REQ packets
 	u.lifecycleMu.Lock()
 	defer u.lifecycleMu.Unlock()
-	if pkt.flags.REQ && u.state.Load() != closed {
+	// After the peer's FIN a REQ belongs to the peer's next tube with this id:
+	// answering it from here would tell the peer that tube exists although it
+	// is never offered to Accept. The peer repeats the REQ until this tube is
+	// closed and reaped.
+	if pkt.flags.REQ && u.state.Load() != closed && !u.finReceived.Load() {
 		u.log.Trace("handing RESP packet to muxer")
 		p := u.makeInitFrame(false)
 		u.sendQueue <- p.toBytes()
@@ -173,6 +181,7 @@ func (u *Unreliable) receive(pkt *frame) error {
 	// A FIN carries no message, only end-of-stream: queueing its empty payload
 	// would hand the reader a datagram that was never written
 	if pkt.flags.FIN {
+		u.finReceived.Store(true)
 		u.recv.Close()
 		return nil
 	}
